@@ -32,6 +32,26 @@ CHECKS = {
              "mismatch, aliased call arguments, negative trip count or unbound symbol where the source is safe, and no uninitialised "
              "value where the source produced a defined one.",
         note="Trusted: TLC, projection, bounded inputs; sources that are themselves ill-scoped (chains) are excluded from the claim."),
+    "C10": dict(level=MC, design="6/C10",
+        technique="TLA+ ExoMachine/ExoEquiv with the CfgAgree clause model-checked by TLC on configuration-affecting derivation edges",
+        text="Accepted bind_config/write_config/delete_config/call_eqv operations and ~25 other primitives applied around configuration "
+             "reads and writes (directly and through callees) are run by TLC over the bounded input domain including varied initial "
+             "configuration states: all buffers must agree and every configuration field outside the modset reported by the "
+             "equivalence tracker must agree; call_eqv with a same-signature callee of foreign origin must be rejected.",
+        note="Trusted: TLC, projection, value mode F, sampled initial configuration states."),
+    "C12": dict(level=MC, design="6/C12",
+        technique="TLA+ trace refinement (ExoAccessTrace mode of ExoMachine): the simplified procedure must replay the source's access trace; TLC",
+        text="simplify is applied to generated procedures whose indices, bounds, allocation sizes and conditions are random quasi-affine "
+             "expressions (/, % by literals, negative intermediates, shadowed iterators) and to the results of other primitives; TLC "
+             "requires the simplified procedure to produce exactly the source's sequence of write/reduce locations and allocation "
+             "shapes and the same final state, for every admissible bounded input.",
+        note="Trusted: TLC, projection; values of read-only index expressions are observed through final values only."),
+    "C19": dict(level=MC, design="6/C19",
+        technique="TLA+ ExoMachine/ExoEquiv with input/output relations (Rel, outmap permutations) model-checked by TLC",
+        text="partial_eval (all singleton/pair argument subsets x values), transpose (every 2-D argument), add_assertion (narrowing), "
+             "rename, make_instr, set_precision, set_memory, set_window and parallelize_loop are applied to the corpus; TLC checks the "
+             "stated relation between source and result on all bounded inputs in real-number (mode F) semantics.",
+        note="Trusted: TLC, the relation construction in harness/utilunits.py (fixing arguments, permuting cells)."),
 }
 
 NOT_YET = {}
